@@ -502,7 +502,7 @@ def write_evidence(pid, tier, results, violations, wall):
         json.dump(doc, f, indent=1)
 
 
-def write_ledger(names=None):
+def write_ledger(names=None, force=False):
     units = load_units()
     os.makedirs(os.path.join(ROOT, 'ledger'), exist_ok=True)
     workdir = os.path.join(SCRATCH_BASE, 'ckbverif.ledger.%d' % os.getpid())
@@ -520,8 +520,10 @@ def write_ledger(names=None):
                 status, failed, undec = classify_verus(vr, meta)
                 if status != 'pass':
                     log('ledger: unit %s does not verify (%s): %s %s' % (name, status, [f['name'] for f in failed], undec[:3]))
-                    rc = 1
-                    continue
+                    if not force or status != 'violation':
+                        rc = 1
+                        continue
+                    log('ledger: --force: recording the obligation names anyway (the failing ones are expected to be repaired in /repo)')
                 obs = sorted({o['name'] for o in meta['obligations']} | {f['function'] + '.safety' for f in meta['functions']})
                 led = {'unit': name, 'tree': subprocess.run(['git', '-C', REPO, 'rev-parse', 'HEAD'], capture_output=True, text=True).stdout.strip(),
                        'obligations': obs,
@@ -547,7 +549,7 @@ def main(argv):
         print(__doc__)
         return 2
     if argv[0] == 'ledger':
-        return write_ledger([a for a in argv[1:] if not a.startswith('--')] or None)
+        return write_ledger([a for a in argv[1:] if not a.startswith('--')] or None, force='--force' in argv)
     if argv[0] == 'units':
         for n, u in load_units().items():
             print(n, u['engine'], u.get('tier', 'quick'), u.get('serves'))
